@@ -21,9 +21,11 @@ Inputs(op) == CASE op \in {"runA", "copyA", "pickleA", "saveloadA", "freshA"} ->
                 \* building a generated project (framework, data, a program set assembled through the API) from scratch and running it: no inputs,
                 \* so every build in one process gives the same result (no state shared between the objects of different builds)
                 [] op = "buildG" -> {}
+                \* the same project run with an edited copy of its framework (a limit lowered; the copy keeps the framework's identifier)
+                [] op \in {"runAedit", "freshAedit"} -> {"A.parset", "A.framework_edited", "A.data", "A.settings"}
 Objects == UNION {Inputs(op) : op \in Ops}
 \* operations that must give the same result as the plain run of project A
-Canonical(op) == IF op \in {"copyA", "pickleA", "saveloadA", "freshA"} THEN "runA" ELSE op
+Canonical(op) == IF op \in {"copyA", "pickleA", "saveloadA", "freshA"} THEN "runA" ELSE IF op = "freshAedit" THEN "runAedit" ELSE op
 VARIABLES content, memo, hist, obs
 vars == <<content, memo, hist, obs>>
 Init == content = [o \in Objects |-> o] /\ memo = {} /\ hist = <<>> /\ obs = ""
